@@ -206,6 +206,7 @@ def finish_lemma(ctx, l, rs, files, known_active, prog):
                                  l.name, v["kind"], v["msg"], v["pos"], l.abstract_witness, line),
                                  {"lemma": l.name, "entry": v["entry"], "files": [os.path.basename(f) for f in files],
                                   "vec": [x for _, x in v["replay"]], "names": [n for n, _ in v["replay"]], "kind": v["kind"], "msg": v["msg"],
+                                  "scale": l.scale, "patches": list(l.replay_patches),
                                   "abstract_witness": l.abstract_witness})
             continue
         if reproduced is None:
@@ -221,6 +222,7 @@ def finish_lemma(ctx, l, rs, files, known_active, prog):
         ctx.report_violation("%s: %s: %s (at %s); native replay: %s" % (l.name, v["kind"], v["msg"], v["pos"], line),
                              {"lemma": l.name, "entry": v["entry"], "files": [os.path.basename(f) for f in files],
                               "vec": [x for _, x in v["replay"]], "names": [n for n, _ in v["replay"]], "kind": v["kind"], "msg": v["msg"],
+                                  "scale": l.scale, "patches": list(l.replay_patches),
                               "paths_with_this_violation": len(vs)})
     # translator validation: a completed symbolic path of this lemma, run natively on the model's inputs, must pass every
     # assumption and assertion of the harness (the executor and the real build agree on that path); replays were run
